@@ -132,7 +132,8 @@ def run_case(case):
         sa, sb = sa[:, :, None], sb[:, :, None]
         fields = (np.array(outs[0].fields), np.array(outs[1].fields))
     violations = []
-    bound = C_BOUND * epsrel * scale
+    bound = C_BOUND * epsrel * scale * (lib.pt_growth(nsteps)
+                                        if method == "pt" else 1.0)
     err = float("nan")
     if sa.shape != sb.shape or sa.shape[0] != nsteps + 1:
         violations.append({"what": "lengths differ", "mechanism": "length",
